@@ -9,7 +9,9 @@ forced on a real store by parking indexer workers and the reader at the verif ho
 seal hand-over is forced at every lock-free hook point of the sealer with an atomic reader and an
 atomic appender in between, plus the slow-reader scenario; (3) a randomised stress workload (writers,
 readers, real maintenance with tiny fractions, cache churn) with run-time checks, also built with the
-Go race detector."""
+Go race detector; (4) recorded concurrent executions (driver handtrace under verifhook's recorder, with and
+without retention) validated event by event against ProxyFracTrace.tla, all ProxyFrac invariants evaluated in
+every recorded state, with corrupted-trace self-tests (checks/_handtrace.py)."""
 import json
 import os
 import vlib
@@ -95,6 +97,45 @@ def run(ctx):
             ev += s["evals"]
             docs += s.get("docs", 0)
     ctx.cov["stress_docs"] = docs
+    # (4) recorded executions of the hand-over, validated event by event against ProxyFrac.tla (ProxyFracTrace.tla):
+    # concurrent writers / readers holding fraction lists / the maintenance pass as the loop runs it, without
+    # retention (appenders racing with the rotation) and with a TotalSize of a few fractions (deletion of a fraction
+    # whose seal is in flight, through the proxy, and of the sealed fraction itself)
+    from checks import _handtrace
+    ht = vlib.build_driver("handtrace")
+    plans = [("0", []), ("0", ["-skip"]), ("4000", []), ("4000", ["-skip"]), ("8000", [])]
+    if not quick:
+        plans = plans * 8
+    files = []
+    for i, (total, extra) in enumerate(plans):
+        d = os.path.join(ctx.scratch, "handtrace-%d" % i)
+        os.makedirs(d)
+        rc, outs, err = vlib.run_driver(ht, ["-bulks", "150" if quick else "300", "-seed", str(ctx.seed * 100 + i), "-total", total] + extra,
+                                        timeout=1200, ok_codes=range(0, 256), env={"VERIF_TRACE_DIR": d, "LOG_LEVEL": "error"})
+        s2 = next((o for o in outs if o.get("summary")), None)
+        if rc != 0 or not s2:
+            ctx.violation("conc:handtrace:crash", {"stderr": err[-2000:], "total": total, "args": extra},
+                          what="the store died during the recorded hand-over workload (TotalSize %s): %s" % (total, err[-300:]))
+            continue
+        for o in outs:
+            if "what" in o:
+                ctx.violation("conc:handtrace:%s" % str(o["what"])[:40], o, what="recorded hand-over workload: %s" % o["what"])
+        ev += s2["evals"]
+        files += [os.path.join(d, f) for f in sorted(os.listdir(d))]
+    if files:
+        nfr, nev, counts, stats = _handtrace.validate(ctx, files, "c07", "conc:handtrace")
+        ctx.cov["handover_traces"] = {"fractions": nfr, "events": nev, "per_event": dict(counts), "projection": dict(stats)}
+        ncase += nfr
+        for need in ("ADMIT", "DONE", "RO", "IDLE", "PUBLISH", "ARELEASED", "READ", "ACQ", "REL", "SSUICIDED", "DELETE", "DELWAIT", "DELRETRY"):
+            if not counts.get(need):
+                vlib.log("[c07] note: the recorded workloads never passed %s" % need)
+    # (5) the repository's own tests as drivers: every fraction their stores rotate, seal, read and delete
+    from checks import _suite
+    pkgs = ["./fracmanager/", "./storeapi/", "./frac/"] if quick else ["./fracmanager/", "./storeapi/", "./frac/", "./proxyapi/", "./tests/integration_tests/", "./cmd/..."]
+    sfiles = _suite.record(ctx, pkgs)
+    nfr, nev, counts, stats = _handtrace.validate(ctx, sfiles, "suite", "conc:suitetrace", selftest=False)
+    ctx.cov["suite_handover_traces"] = {"fractions": nfr, "events": nev, "per_event": dict(counts), "projection": dict(stats), "packages": pkgs}
+    ncase += nfr
     ctx.cov["traces_validated_against_impl"] = ncase
     ctx.cov["evaluations"] = ev
     ctx.cov["distinct_nontrivial"] = summ["nontrivial"]
@@ -105,4 +146,4 @@ def run(ctx):
                        "stress: 4 (6) writers x 1500 bulks, 16 (32) readers, maintenance loop with FracSize 600 B, cache resets; non-trivial = forced behaviours with > 4 steps")
     ctx.assumptions += ["'no data race' is the Go race detector's verdict on the explored schedules, not a statement of the specification",
                         "the two token-queue insertions of one bulk (_all_ and the token) cannot be separated by a hook: that finer interleaving is checked in the model only (Split = TRUE)",
-                        "proxyFrac is bound through forced reader-atomic interleavings and the stress workload; retention (suicide) is excluded from the workload as the property's schedule is rotate -> seal -> release"]
+                        "proxyFrac is bound through forced reader-atomic interleavings, the stress workload (without retention: the property's schedule is rotate -> seal -> release) and recorded executions validated against ProxyFracTrace.tla (those include retention; their maintenance pass runs while no bulk is queued, see DESIGN.md section 9, observations)"]
